@@ -182,7 +182,10 @@ class Ctx:
             w.update({"index": [int(i) for i in idx], "got": jsonable(got[idx]),
                       "want": jsonable(want[idx]), "tol": float(np.max(tol)),
                       "max_abs_err": err})
-            self.fail(mechanism, "%s: |got-want| = %.3g > tol %.3g" % (name, err, float(np.max(tol))), w)
+            nnan = int(np.isnan(d).sum())
+            self.fail(mechanism, "%s: |got-want| = %.3g > tol %.3g%s" % (
+                name, float(d[idx]) if not np.isnan(d[idx]) else float("nan"), float(np.max(tol)),
+                " (%d non-comparable NaN entries)" % nnan if nnan else ""), w)
             return False
         return True
 
